@@ -51,11 +51,16 @@ def _build(eko, w, flags, mk, target):
 
     state = []
     for i, f in enumerate(flags):
-        s = {"d": False, "c": False, "l": False, "e": False}
+        s = {"d": False, "c": False, "l": False, "e": False, "r": False}
         if f["d"]:
             s["d"] = True
             s["e"] = bool(f["e"])
             eko[KEYS[i]] = mk(i, s["e"])
+            if f.get("r", False):
+                # the item has been read from disk at least once before (unload, then lazy load)
+                s["r"] = True
+                del eko[KEYS[i]]
+                eko[KEYS[i]]
             if f["c"]:
                 s["c"] = True
                 if f["l"]:
@@ -222,6 +227,7 @@ FALLBACK_STATES = [
     (0, [[True, True, True, False], [True, True, False, False], [False, False, False, False]], False),
     (2, [[True, True, True, False], [True, True, False, False], [False, False, False, False]], False),
     (0, [[True, True, True, True], [True, False, False, False], [True, True, True, False]], False),
+    (0, [[True, True, True, False, True], [True, True, False, False, True], [False, False, False, False]], True),
     (1, [[True, True, False, False], [True, False, False, False], [False, False, False, False]], True),
 ]
 
@@ -239,14 +245,14 @@ def _cycle():
 def replay_generic_step(point, kind):
     """fall-back (used by the framework if the symbolic run of a case cannot complete): canonical states, every aspect"""
     j, state, en = FALLBACK_STATES[int(point.get("i", 0)) % len(FALLBACK_STATES)]
-    for aspect in ("derived", "ret", "view", "disk"):
+    for aspect in ("derived", "ret", "view", "disk", "readback"):
         r = replay_step(point, kind, j if kind in NEEDS_KEY else None, state, en, aspect)
         if r:
             return r
     return None
 
 
-def case_step(log, kind, err_all=False, readback=False):
+def case_step(log, kind, err_all=False, readback=True, read_all=False):
     log.encode(*iofs.encoded_functions())
     decide = iofs.Decider(log)
     log.register_replay("%s:fallback" % kind, (MOD, "replay_generic_step", {"kind": kind}), _cycle())
@@ -272,14 +278,15 @@ def case_step(log, kind, err_all=False, readback=False):
             flags = []
             for i in range(3):
                 e_sym = err_all or (kind == "set" and i == j)
+                r_sym = read_all or i == (j if j is not None else 0)
                 flags.append({"d": ZBool(z3.Bool("disk%d" % i)), "c": ZBool(z3.Bool("cached%d" % i)), "l": ZBool(z3.Bool("loaded%d" % i)),
-                              "e": ZBool(z3.Bool("err%d" % i)) if e_sym else False})
+                              "e": ZBool(z3.Bool("err%d" % i)) if e_sym else False, "r": ZBool(z3.Bool("readbefore%d" % i)) if r_sym else False})
             state = _build(eko, w, flags, lambda i, e: iofs.MOperator(tags[i], e), j)
             en = bool(ZBool(z3.Bool("errnew"))) if kind == "set" else False
             D, V, D2, Vlow, Vex, ret = _reference(kind, j, state, tags, tn, en)
             desc = "%s(%s) from state %s" % (kind, "" if j is None else "key%d%s" % (j, (", err=%s" % en) if kind == "set" else ""),
-                                              " ".join("k%d:%s" % (i, "".join(c for c in "dcle" if s[c]) or "-") for i, s in enumerate(state)))
-            kw = {"kind": kind, "j": j, "state": [[s["d"], s["c"], s["l"], s["e"]] for s in state], "en": en}
+                                              " ".join("k%d:%s" % (i, "".join(c for c in "dcler" if s[c]) or "-") for i, s in enumerate(state)))
+            kw = {"kind": kind, "j": j, "state": [[s["d"], s["c"], s["l"], s["e"], s["r"]] for s in state], "en": en}
             _views(eko)  # the derived listings are looked at before the operation ...
             got, exc = None, None
             try:
@@ -328,10 +335,12 @@ def case_step(log, kind, err_all=False, readback=False):
                 v = prove_formula(z3.And([z3.BoolVal(True)] + conj), "%s: every key read back after close + read equals the dict" % desc)
                 decide(v, key="reopen:values", replay=(MOD, "replay_step", dict(kw, aspect="disk")))
             if readback and exc is None and kind != "reopen":
-                # thorough: a second step, get(j2) for every j2, against the dict after the first step
+                # two more steps for every key j2: unload(j2), then get(j2) -- a read fresh from disk -- against the dict
+                # after the first step (with the pre-state built by set / unload / get this is a history of length >= 4)
                 for j2 in range(3):
                     got2, exc2 = None, None
                     try:
+                        del eko[KEYS[j2]]
                         got2 = eko[KEYS[j2]]
                     except Exception as e:  # noqa
                         exc2 = e
@@ -339,7 +348,7 @@ def case_step(log, kind, err_all=False, readback=False):
                         f2 = z3.BoolVal(False) if (exc2 is not None or got2 is None) else z3.And(zeq(got2.tag, D2[j2][0]), z3.BoolVal((got2.error is not None) == bool(D2[j2][1])))
                     else:
                         f2 = z3.BoolVal(isinstance(exc2, ValueError))
-                    v = prove_formula(f2, "%s; then get(key%d) returns the dict's value / raises" % (desc, j2))
+                    v = prove_formula(f2, "%s; then unload(key%d), get(key%d) returns the dict's value / raises" % (desc, j2, j2))
                     decide(v, key="%s+get:ret" % kind, replay=(MOD, "replay_step", dict(kw, aspect="readback")))
             log.twin("state flags")
 
@@ -447,6 +456,111 @@ def case_approx(log, n, defaults=False, signed=False):
     _r, pm = explore(run, max_paths=20000)
     log.path_stats(pm)
     decide.finish()
+
+
+def case_contains_sym(log, n, signed=False):
+    """`ep in eko` against the dictionary model with symbolic stored scales and a symbolic, possibly
+    nearby-but-different query: membership is exact key equality, never an error."""
+    import eko.io.struct as st
+
+    log.encode(st.EKO.__contains__, st.EKO.__iter__, st.EKO.approx)
+    decide = iofs.Decider(log)
+    cands = _contains_candidates(n)
+    cnt = [0]
+
+    def fb_sampler(rng):
+        cnt[0] += 1
+        return cands[(cnt[0] - 1) % len(cands)]
+
+    log.register_replay("EKO.__contains__:fallback", (MOD, "replay_contains", {"n": n, "same": [True] * n}), fb_sampler)
+
+    def run():
+        fs = FS()
+        with Binder(fs, np=_NP()):
+            from eko.io.items import Target
+
+            w = ModelWorld(fs)
+            eko = _fresh_eko(w)
+            x = SR.var("x")
+            ss = [SR.var("s%d" % i) for i in range(n)]
+            if not signed:
+                assume(x, ">0")
+                for s_ in ss:
+                    assume(s_, ">0")
+            for a in range(n):
+                for b in range(a + 1, n):
+                    assume(ss[a] - ss[b], "!=0")
+            same = [bool(ZBool(z3.Bool("samenf%d" % i))) for i in range(n)]
+            for i in range(n):
+                eko.operators.cache[Target(ss[i], 4 if same[i] else 5)] = None
+            got, exc = None, None
+            try:
+                got = (x, 4) in eko
+            except Exception as e:  # noqa
+                exc = e
+            xz = z3.Real("x")
+            member = z3.Or([z3.BoolVal(False)] + [z3.And(z3.BoolVal(same[i]), xz == z3.Real("s%d" % i)) for i in range(n)])
+            kw = {"n": n, "same": same}
+            desc = "(x,4) in eko with %d stored points, same-nf pattern %s" % (n, "".join("1" if b else "0" for b in same))
+            if exc is not None:
+                v = prove_formula(z3.BoolVal(False), "%s raised %s: membership never raises" % (desc, type(exc).__name__))
+                decide(v, key="EKO.__contains__:raises", replay=(MOD, "replay_contains", kw), candidates=cands, sampler=_contains_sampler(n), nrandom=2)
+            else:
+                v = prove_formula(z3.BoolVal(bool(got)) == member, "%s is %s: true exactly if (x,4) equals a stored key" % (desc, bool(got)))
+                decide(v, key="EKO.__contains__:exact", replay=(MOD, "replay_contains", kw), candidates=cands, sampler=_contains_sampler(n), nrandom=2)
+            log.twin("distinct scales")
+            log.collect_ctx()
+
+    _r, pm = explore(run, max_paths=20000)
+    log.path_stats(pm)
+    decide.finish()
+
+
+def _contains_candidates(n):
+    """the query a few 1e-7 (relative) away from one stored scale / between two stored scales 1e-6 apart; the query on a stored scale"""
+    out = []
+    base = Fraction(100)
+    near = [base, base * (1 + Fraction(1, 10**6)), Fraction(300)]
+    for x in (base * (1 + Fraction(5, 10**7)), base * (1 - Fraction(3, 10**7)), base, Fraction(200)):
+        pt = {"x": x}
+        for i in range(n):
+            pt["s%d" % i] = near[i]
+        out.append(pt)
+    return out
+
+
+def _contains_sampler(n):
+    def f(rng):
+        base = rnd(rng, 1, 200)
+        pt = {"x": base * (1 + Fraction(rng.randint(-9, 9), 10**7))}
+        for i in range(n):
+            pt["s%d" % i] = base * (1 + Fraction(i, 10**6)) if i < 2 else base * 3
+        return pt
+
+    return f
+
+
+def replay_contains(point, n, same):
+    vals = {k: _frac(v) for k, v in point.items()}
+    if any(vals.get(k) is None for k in ["x"] + ["s%d" % i for i in range(n)]):
+        return None
+    x = float(vals["x"])
+    stored = [(float(vals["s%d" % i]), 4 if same[i] else 5) for i in range(n)]
+    if len(set(stored)) != n:
+        return None
+    with scratch() as d:
+        w = RealWorld(d / "out.tar")
+        eko = _fresh_eko(w)
+        for i, (s, nf) in enumerate(stored):
+            eko[(s, nf)] = iofs.real_op(i)
+        want = (x, 4) in {k: None for k in stored}  # the plain dict
+        try:
+            got = (x, 4) in eko
+        except Exception as e:  # noqa
+            return {"detail": "(%r, 4) in eko with stored points %r raises %s: %s; a dict answers %s" % (x, stored, type(e).__name__, str(e)[:120], want)}
+    if bool(got) != want:
+        return {"detail": "(%r, 4) in eko is %s with stored points %r; a dict keyed by (scale, nf) answers %s" % (x, got, stored, want)}
+    return None
 
 
 def _approx_candidates(n, defaults):
@@ -569,7 +683,7 @@ def replay_step(point, kind, j, state, en, aspect):
     with scratch() as d:
         w = RealWorld(d / "out.tar")
         eko = _fresh_eko(w)
-        flags = [{"d": s[0], "c": s[1], "l": s[2], "e": s[3]} for s in state]
+        flags = [{"d": s[0], "c": s[1], "l": s[2], "e": s[3], "r": s[4] if len(s) > 4 else False} for s in state]
         st = _build(eko, w, flags, lambda i, e: iofs.real_op(10 + i, e), j)
         tags = [10.0, 11.0, 12.0]
         D, V, D2, Vlow, Vex, ret = _reference(kind, j, st, tags, 99.0, en)
@@ -707,6 +821,11 @@ def main():
         "the derived listings EKO.evolgrid, EKO.mu2grid and EKO.raw['mu2grid'] are read before and after every step and must list what iteration yields afterwards",
         "one inductive step for each operation kind {set (insert and overwrite), get, del (unload one), contains, iterate, items, sync, unload (all), close+reopen} "
         "with symbolic key index; thorough tier adds a second step get(k) for every k after each first step",
+        "every step is followed, for every key k, by unload(k) and get(k) (a read fresh from disk) against the dict; the pre-state of a key also says whether it "
+        "has been read from disk before (z3 Bool; for the key operated on in the quick tier, for all keys in the thorough tier) -- with the pre-state built by "
+        "set / unload / get this gives histories of length >= 4 such as read-from-disk, overwrite with switched error presence, unload, re-read",
+        "membership with symbolic keys: `(x,4) in eko` for 1..3 stored points with symbolic real scales and symbolic same-nf pattern equals exact key equality "
+        "(in particular False for a query arbitrarily close to, but different from, a stored scale) and never raises",
         "approx: 1..3 stored points with symbolic real scales (positive in the quick tier, any sign in the thorough tier), same/different nf pattern symbolic, "
         "query scale, rtol >= 0 and atol >= 0 symbolic reals; plus the default tolerances 1e-6 / 1e-10 as exact rationals",
     ]
@@ -727,10 +846,12 @@ def main():
     iofs.preload()
     thorough = tier == "thorough"
     for k in KINDS:
-        chk.case("step.%s" % k, case_step, kind=k, err_all=thorough, readback=thorough)
+        chk.case("step.%s" % k, case_step, kind=k, err_all=thorough, read_all=thorough)
     for n in (1, 2, 3):
         chk.case("approx.n%d" % n, case_approx, n=n, signed=thorough)
         chk.case("approx.n%d.defaults" % n, case_approx, n=n, defaults=True, signed=thorough)
+    for n in (1, 2, 3):
+        chk.case("contains.n%d" % n, case_contains_sym, n=n, signed=thorough)
     chk.case("validate", case_validate)
     return chk.run()
 
